@@ -65,7 +65,7 @@ def restore_histories(seed, n):
 
 
 def force_histories(seed, n):
-    """`--force` re-commits in awkward states (copy and hard-link methods; the symlink variant is known finding K10): the
+    """`--force` re-commits in awkward states (copy and hard-link methods; the symlink variant is CORPUS F31 in lib/repo_check.py): the
     workspace copy missing, modified, unmodified, a duplicate of another path - a committed version must survive them all"""
     rng = random.Random(f'c04-force-{seed}')
     out = []
